@@ -475,4 +475,73 @@ theorem dc_eq_all (T : Table) :
     simp only [okKVs, Bool.and_eq_true, Bool.not_eq_true'] at hok
     simp [dcKVs, kvsEq, vEq_refl, (hv hok.1.2).1 hok.1.1.2, hr hok.2]
 
+/-! ### re-construction -/
+
+theorem rc_fields_eq (T : Table) : ∀ (as : List AttrInfo) (fs : Vals),
+    okFields fs = true → reconstructible T as fs = true →
+    fieldsEq T as (rcFields as fs) fs = true := by
+  intro as
+  induction as with
+  | nil => intro fs _ _; exact fieldsEq_nil T _ _
+  | cons a as ih =>
+    intro fs hok hrc
+    cases fs with
+    | nil => simp [reconstructible] at hrc
+    | cons v r =>
+      simp only [okFields, Bool.and_eq_true] at hok
+      simp only [reconstructible, Bool.and_eq_true, Bool.or_eq_true, Bool.not_eq_true'] at hrc
+      have hr := ih r hok.2 hrc.2
+      have hdc := ((dc_eq_all T).1 v hok.1).2
+      -- the new value of the attribute is attribute-equal to the old one whenever the attribute is compared
+      have key : ∀ v', (a.compare = false ∨ attrEq T v' v = true) →
+          fieldsEq T (a :: as) (.cons v' (rcFields as r)) (.cons v r) = true := by
+        intro v' h
+        rw [fieldsEq_cons, hr]
+        rcases h with h | h <;> simp [h]
+      have hd : a.compare = false ∨ (a.init = true ∧ v.isMissing = false) ∨ attrEq T a.dflt v = true := by
+        rcases hrc.1 with (h | h) | h
+        · exact Or.inl h
+        · exact Or.inr (Or.inl (by simpa using h))
+        · exact Or.inr (Or.inr h)
+      simp only [rcFields]
+      cases hi : a.init with
+      | false =>
+        simp only [Bool.false_eq_true, if_false]
+        apply key
+        rcases hd with h | h | h
+        · exact Or.inl h
+        · rw [hi] at h; cases h.1
+        · exact Or.inr h
+      | true =>
+        simp only [if_true]
+        cases v with
+        | missing =>
+          apply key
+          rcases hd with h | h | h
+          · exact Or.inl h
+          · simp [Val.isMissing] at h
+          · exact Or.inr h
+        | bound o f =>
+          cases o with
+          | none => apply key; right; simp [attrEq]
+          | some o => apply key; right; exact hdc
+        | _ => apply key; right; exact hdc
+
+/-! ### repr -/
+
+theorem reprEntries_names (T : Table) : ∀ (as : List AttrInfo) (fs : Vals),
+    (reprEntries T as fs).map (·.1) = (as.filter (·.repr)).map (·.name) := by
+  intro as
+  induction as with
+  | nil => intro fs; simp [reprEntries]
+  | cons a as ih =>
+    intro fs
+    cases fs with
+    | nil =>
+      simp only [reprEntries, List.map_append, ih, List.filter_cons]
+      cases a.repr <;> simp
+    | cons v r =>
+      simp only [reprEntries, List.map_append, ih, List.filter_cons]
+      cases a.repr <;> simp
+
 end SpecVerif.C10
